@@ -10,7 +10,8 @@ from ..model import AnalysisError, Program
 from ..paths import PEvent, SymPath, norm_less, show
 from ..report import Report
 from .breaker_table import CB, check_method, is_clock
-from .common import SELF, attr
+from .common import SELF, attr, owned_by
+from .windows import WindowSpec, loop_idioms, prunes, unverified_loops
 
 F = attr(SELF, "_failures")
 CF = attr(SELF, "_class_failures")
@@ -18,10 +19,21 @@ NOW = ("param", "now")
 KL = ("param", "klass")
 
 
-def window_shape(rep: Report, rid: str, prog: Program, qual: str, bucket: Any, window: Any) -> None:
-    """`_prune`: pop from the left while bucket[0] <= now - window, nothing else"""
-    fi = prog.func(qual)
+def window_shape(rep: Report, rid: str, prog: Program, qual: str, bucket: Any, window: Any, now_pos: int = -1) -> bool:
+    """`_prune`: pop from the left while bucket[0] <= now - window, nothing else.
+    `bucket` is a term, or the index of the positional parameter holding the container; the time is the
+    positional parameter `now_pos` (names are free).  Returns False when the helper does not exist (its
+    callers then carry the loop themselves and are judged by windows.loop_idioms)."""
+    fi = prog.funcs.get(qual)
+    if fi is None:
+        return False
     rep.analysed(qual)
+    pos = fi.positional_params()
+    if isinstance(bucket, int):
+        if bucket >= len(pos):
+            raise AnalysisError(f"{qual}: expected a container parameter at position {bucket}")
+        bucket = ("param", pos[bucket])
+    NOW = ("param", pos[now_pos])
     paths = engine(prog).paths(fi)
     first = ("sub", bucket, ("const", 0))
     loops = pops = 0
@@ -64,6 +76,7 @@ def window_shape(rep: Report, rid: str, prog: Program, qual: str, bucket: Any, w
         rep.ok(rid)
     else:
         rep.fail(rid, f"{qual.split(':')[-1]}|prune-shape", f"{qual}: pruning is not `while bucket and bucket[0] <= now - window: bucket.popleft()` ({why or f'loops={loops}, pops={pops}'})", where=fi.where(), function=qual)
+    return True
 
 
 def check_note_failure(rep: Report, prog: Program) -> None:
@@ -71,32 +84,46 @@ def check_note_failure(rep: Report, prog: Program) -> None:
     fi = prog.func(f"{CB}._note_failure")
     rep.analysed(fi.qual)
     paths = engine(prog).paths(fi)
+    pos = fi.positional_params()
+    if len(pos) != 3:
+        raise AnalysisError(f"{fi.qual}: expected (self, klass, now)")
+    KL, NOW = ("param", pos[1]), ("param", pos[2])  # parameter names are free
+    spec = WindowSpec("CircuitBreaker._prune", lambda e: e.args[0] if e.args else None, lambda e: e.args[1] if len(e.args) > 1 else None, attr(SELF, "_window_s"))
+    top = engine(prog).cfgs.get(fi)
+    idioms = loop_idioms(paths, top, spec.window)
+    for bad in unverified_loops(idioms):
+        rep.instance("R6.2", f"_note_failure|while-loop@{bad.head}")
+        rep.fail("R6.2", "_note_failure|loop-shape", f"_note_failure: a while loop is not the prune idiom: {bad.problem}", where=fi.where(top.nodes[bad.head].ast), function=fi.qual)
     TH = ("pure", ".get", (attr(SELF, "_class_thresholds"), KL), ())
     FT = attr(SELF, "_failure_threshold")
     glob_ret = ("not", ("cmp", "<", ("pure", "len", (F,), ()), FT))
     for p in paths:
+        if p.exit[0] == "loop" and p.exit[1] in idioms:
+            continue  # one iteration of an inline prune loop: judged by loop_idioms
         construct = "|".join(p.describe()[-4:])
         rep.instance("R6.2", "_note_failure|" + construct, {"path": p.describe()} if len(rep.samples) < 8 else None)
         imp = [e for e in p.events if e.kind == "call" and not e.pure]
         problems = []
+        allpr = prunes(p, spec, idioms, top)
+        pr_events = [x.event for x in allpr if x.event is not None]
         # global bucket first: prune then append, same container, same now
-        gpr = [e for e in imp if e.is_repo("CircuitBreaker._prune") and e.args[:2] == [F, NOW]]
+        gpr = [x for x in allpr if x.container == F and x.now == NOW]
         gap = [e for e in imp if _is_method(e, "append") and e.recv == F and e.args == [NOW]]
         if len(gpr) != 1 or len(gap) != 1:
-            problems.append("global window: expected exactly one _prune(self._failures, now) and one self._failures.append(now)")
-        rest = [e for e in imp if e not in gpr and e not in gap]
+            problems.append("global window: expected exactly one prune of self._failures at `now` and one self._failures.append(now)")
+        rest = [e for e in imp if e not in pr_events and e not in gap]
+        cpr = [x for x in allpr if x not in gpr]
         has_threshold = any(a == ("cmp", "is", TH, ("const", None)) and not pol for a, pol, _ in p.conds)
         no_threshold = any(a == ("cmp", "is", TH, ("const", None)) and pol for a, pol, _ in p.conds)
         if not (has_threshold or no_threshold):
             problems.append("class threshold presence is not tested (`_class_thresholds.get(klass) is None`)")
         if has_threshold:
-            prunes = [e for e in rest if e.is_repo("CircuitBreaker._prune")]
             apps = [e for e in rest if _is_method(e, "append")]
-            if len(prunes) != 1 or len(apps) != 1:
-                problems.append("class window: expected exactly one _prune(bucket, now) and one bucket.append(now)")
+            if len(cpr) != 1 or len(apps) != 1:
+                problems.append("class window: expected exactly one prune of the class bucket at `now` and one bucket.append(now)")
             else:
-                B = prunes[0].args[0]
-                if apps[0].recv != B or prunes[0].args[1] != NOW or apps[0].args != [NOW]:
+                B = cpr[0].container
+                if apps[0].recv != B or cpr[0].now != NOW or apps[0].args != [NOW]:
                     problems.append("class window: prune/append use different containers or a different `now`")
                 got = ("pure", ".get", (CF, KL), ())
                 fresh = B[0] == "pure" and str(B[1]).startswith("deque") or (B[0] == "pure" and "deque" in str(B[1]))
@@ -115,19 +142,26 @@ def check_note_failure(rep: Report, prog: Program) -> None:
                 elif p.exit != ("return", glob_ret):
                     problems.append(f"result is {show(p.exit[1])}, expected len(self._failures) >= self._failure_threshold")
         else:
-            if rest:
-                problems.append(f"unexpected effects without a class threshold: {[e.label for e in rest]}")
+            if rest or cpr:
+                problems.append(f"unexpected effects without a class threshold: {[e.label for e in rest] + ['prune ' + show(x.container) for x in cpr]}")
             if p.exit != ("return", glob_ret):
                 problems.append(f"result is {show(p.exit[1]) if len(p.exit) > 1 else p.exit}, expected len(self._failures) >= self._failure_threshold")
         if problems:
             rep.fail("R6.2", "_note_failure|" + problems[0][:60], f"_note_failure: {'; '.join(problems)}", where=f"{fi.module.relpath}:{fi.node.lineno}", function=fi.qual, path=p.describe())
         else:
             rep.ok("R6.2")
-    window_shape(rep, "R6.2", prog, f"{CB}._prune", ("param", "bucket"), attr(SELF, "_window_s"))
-    # _clear_failures clears both containers
-    cf = prog.func(f"{CB}._clear_failures")
-    rep.analysed(cf.qual)
-    for p in engine(prog).paths(cf):
+    if not window_shape(rep, "R6.2", prog, f"{CB}._prune", 1, attr(SELF, "_window_s"), now_pos=2):
+        rep.instance("R6.2", "_note_failure|inline-prune-loops")
+        if len(idioms) >= 2 and not unverified_loops(idioms):
+            rep.ok("R6.2")
+        else:
+            rep.fail("R6.2", "_note_failure|inline-prune-loops", f"no _prune helper and {len(idioms)} verified inline prune loops in _note_failure (two windows are pruned)", where=fi.where(), function=fi.qual)
+    # _clear_failures clears both containers (when the helper is spelled out at its call sites instead, the
+    # transition table of R6.1 / C07 R7.1 counts the pair of clear() calls as the clearing)
+    cf = prog.funcs.get(f"{CB}._clear_failures")
+    if cf is not None:
+        rep.analysed(cf.qual)
+    for p in engine(prog).paths(cf) if cf is not None else []:
         cl = [e.recv for e in p.events if e.kind == "call" and _is_method(e, "clear")]
         rep.instance("R6.2", "_clear_failures")
         if set(map(repr, cl)) == {repr(F), repr(CF)} and len([e for e in p.events if e.kind == "call" and not e.pure]) == 2:
@@ -137,12 +171,15 @@ def check_note_failure(rep: Report, prog: Program) -> None:
     # ownership of the containers
     ci = prog.cls(CB)
     allowed = {"__init__", "_note_failure", "_clear_failures"}
+    if cf is None:
+        allowed |= {"record_success", "record_failure"}  # the clearing is spelled out in the transition methods (R6.1 decodes it)
+    owners = tuple(f"{CB}.{n}" for n in allowed)
     for m in prog.modules.values():
         for fn in [f for f in prog.funcs.values() if f.module is m]:
             for n in prog._own_nodes(fn.node):
                 if isinstance(n, ast.Attribute) and n.attr in ("_failures", "_class_failures"):
                     rep.instance("R6.2", f"container-use|{fn.qual}|{n.attr}")
-                    if fn.cls is ci and fn.name in allowed:
+                    if fn.cls is ci and (fn.name in allowed or owned_by(prog, fn, owners)):
                         rep.ok("R6.2")
                     else:
                         rep.fail("R6.2", f"container-use|{fn.qual}|{n.attr}", f"{fn.qual} touches `{n.attr}`; the failure windows are owned by _note_failure/_clear_failures", where=fn.where(n), function=fn.qual)
